@@ -22,8 +22,10 @@ type histCfg struct {
 	prop        string
 	maxOps      int
 	allowKill   bool
-	checkImage  func(ctx, cause string)
-	afterAccept func()
+	checkImage   func(ctx, cause string)
+	afterAccept  func()
+	up4          bool
+	afterRestart func() bool
 }
 
 func scenarioC03(r *Run) {
@@ -44,7 +46,7 @@ func scenarioC03(r *Run) {
 		return
 	}
 	for _, p := range r.Peers {
-		if p.Associate() == nil {
+		if p.AssociateRetry() == nil {
 			r.Violate("C03", "no-association-response", "Association Setup got no response")
 			return
 		}
@@ -77,6 +79,15 @@ func runHistory(r *Run, g *Gen, hc histCfg) {
 			kind = 1
 		}
 		cmdsBefore := r.W.Bess.Calls
+		if hc.up4 {
+			cmdsBefore = r.W.P4.Writes
+		}
+		cmdsNow := func() int {
+			if hc.up4 {
+				return r.W.P4.Writes
+			}
+			return r.W.Bess.Calls
+		}
 		armKill := hc.allowKill && !killed && r.Ch.Choose(12, "kill") == 1
 		if armKill {
 			r.Sim.KillInc = r.Inc
@@ -87,8 +98,14 @@ func runHistory(r *Run, g *Gen, hc histCfg) {
 		case 0, 6, 7: // establish
 			sh := SessShape{UEAlloc: r.Ch.Choose(3, "uealloc") == 1, TEIDChoose: r.Ch.Choose(2, "choose") == 1,
 				NQER: r.Ch.Choose(5, "nqer"), ExtraPDRs: r.Ch.Choose(3, "extra"), Wide: r.Ch.Choose(6, "wide") == 1}
+			if g.UP4 && g.Avoid["up4-multi-pdr-session"] {
+				sh.ExtraPDRs = 0
+			}
 			s := g.Session(p, sh)
 			res := p.Establish(s)
+			if g.UP4 && sh.ExtraPDRs > 0 && res.Accepted {
+				r.Taint(s.UPSEID, "up4-multi-pdr-session")
+			}
 			r.Op("establish peer%d cp=%d pdrs=%d fars=%d qers=%d choose=%v uealloc=%v -> accepted=%v cause=%d up=%d", p.Idx, s.CPSEID, len(s.PDRs), len(s.FARs), len(s.QERs), sh.TEIDChoose, sh.UEAlloc, res.Accepted, res.Cause, s.UPSEID)
 			r.Skel(fmt.Sprintf("est:%v", res.Accepted))
 			if res.Accepted {
@@ -143,8 +160,8 @@ func runHistory(r *Run, g *Gen, hc histCfg) {
 				if c, ok := CauseOf(rx.Msg); ok && c == ie.CauseRequestAccepted {
 					r.Violate(hc.prop, "unknown-session-accepted", "request for unknown session %d was accepted", bogus)
 				}
-				if r.W.Bess.Calls != cmdsBefore {
-					r.Violate(hc.prop, "unknown-session-writes", "request for unknown session %d caused %d datapath commands", bogus, r.W.Bess.Calls-cmdsBefore)
+				if cmdsNow() != cmdsBefore {
+					r.Violate(hc.prop, "unknown-session-writes", "request for unknown session %d caused %d datapath commands", bogus, cmdsNow()-cmdsBefore)
 				}
 			}
 			r.Op("request for unknown session %d", bogus)
@@ -158,8 +175,8 @@ func runHistory(r *Run, g *Gen, hc histCfg) {
 			if res.Accepted {
 				delete(p.Sessions, s.CPSEID)
 				r.Violate(hc.prop, "no-association-accepted", "establishment with unknown Node ID accepted")
-			} else if res.Rx != nil && !armKill && r.W.Bess.Calls != cmdsBefore {
-				r.Violate(hc.prop, "no-association-writes", "rejected establishment (no association) caused %d datapath commands", r.W.Bess.Calls-cmdsBefore)
+			} else if res.Rx != nil && !armKill && cmdsNow() != cmdsBefore {
+				r.Violate(hc.prop, "no-association-writes", "rejected establishment (no association) caused %d datapath commands", cmdsNow()-cmdsBefore)
 			}
 			r.Op("establish with unknown node id -> accepted=%v cause=%d", res.Accepted, res.Cause)
 		case 5: // second modification on the same session right away (history depth)
@@ -186,7 +203,7 @@ func runHistory(r *Run, g *Gen, hc histCfg) {
 			if r.Sim.IncDead(r.Inc) && len(r.Sim.Panics) == 0 {
 				killed = true
 				r.Fault("agent-kill")
-				if r.W.Bess.Calls != cmdsBefore {
+				if cmdsNow() != cmdsBefore {
 					r.Probe("kill-inside-datapath-update")
 				}
 				r.Op("agent killed at scheduler step (inc %d)", r.Inc)
@@ -201,9 +218,15 @@ func runHistory(r *Run, g *Gen, hc histCfg) {
 				if !r.AgentAlive() {
 					return
 				}
+				if hc.afterRestart != nil && !hc.afterRestart() {
+					if r.AgentAlive() {
+						r.Violate(hc.prop, "not-ready-after-restart", "the restarted agent did not initialise the datapath")
+					}
+					return
+				}
 				hc.checkImage("after restart of the agent against the populated datapath", "restart")
 				for _, q := range r.Peers {
-					if q.Associate() == nil {
+					if q.AssociateRetry() == nil {
 						r.Violate(hc.prop, "no-association-response-after-restart", "Association Setup got no response after restart")
 						return
 					}
